@@ -15,6 +15,8 @@ CLAIMED = {
           "deterministic simulation: paired seeded runs differing in one configuration knob"),
  "C09": ("html-stream", "4.6", "at every token emission of every simulated run the reported line is compared with 1 + line breaks in the input consumed so far, measured by the harness-owned queue (no hook); set_current_line forwarding checked against the token's line",
           "deterministic simulation: consumption probe invariant at every emission"),
+ "C10": ("byte-stream", "4.7", "bytes generated per encoding (every ill-formed UTF-8 class, lone lead bytes, ISO-2022-JP escapes, UTF-16 lone surrogates, BOMs, truncated tails) delivered as process() chunks cut at arbitrary byte offsets or through read_from(SimReader) with short reads, Interrupted and (separate fault cases) a hard error; the text reaching the inner sink and the number of error() calls must equal a one-shot lossy decode; from_utf8() parsers must build the tree of the lossy string; every delivered piece must be valid UTF-8",
+          "deterministic simulation: seeded byte-delivery and I/O-fault search against a one-shot reference decode"),
  "C11": ("tendril-history", "4.8", "seeded operation histories (30 operation kinds of the safe Tendril API) over a pool of 6 tendrils per format (UTF8, Bytes, ASCII, Latin1, WTF8) x {NonAtomic, Atomic}; after every operation every live tendril equals its Vec<u8> model, checked operations fail exactly when the model says, content stays valid for the format",
           "deterministic simulation: seeded history search against an executable reference model"),
  "C12": ("tendril-history-ledger + miri", "4.9", "the same histories run inside an allocation-ledger region (global allocator with live table, red zones, poison + quarantine): double free, free with a different layout, out-of-bounds write, write after free, leak; thorough tier adds the histories and a 3-thread clone/SendTendril scenario under Miri with seeded schedules",
@@ -29,6 +31,9 @@ CLAIMED = {
           "deterministic simulation: recorded-history check of seeded runs"),
 }
 
+CLAIMED["C20"] = ("rcdom-history", "4.14", "a tee sink forwards every TreeSink call of real HTML/XML parses, and seeded direct histories of contract-valid calls, to both RcDom and the abstract DOM model; after every mutating call: structural equality, parent link of every node ever created, serializer callbacks vs. model preorder walk",
+          "deterministic simulation: seeded history search against an executable reference model")
+
 NOT_APPLICABLE = {
  "C01": "pure function of (input, start state, sink answers): no schedule, fault, clock or history to simulate; deciding it needs a second WHATWG tokenizer (differential testing), outside this technique. Schedule/option-dependent aspects are decided under C03/C08/C09.",
  "C02": "pure function of the input and configuration; no reference tree constructor exists on this machine and re-implementing one is translation validation, not simulation.",
@@ -39,8 +44,6 @@ NOT_APPLICABLE = {
 }
 
 PENDING = {
- "C10": "not claimed at this commit: byte-stream world not built yet (planned, DESIGN.md §4.7)",
- "C20": "not claimed at this commit: RcDom history world not built yet (planned, DESIGN.md §4.14)",
 }
 
 def main():
@@ -71,6 +74,8 @@ def main():
         "engines": [
             {"name": "tendril-history", "path": "/verif/sim/tendril_hist/src/lib.rs", "serves_properties": ["C11", "C12"], "kind_free_text": "seeded operation histories over tendril pools with Vec<u8> models; allocation ledger (global allocator) and Miri front ends"},
             {"name": "bufferqueue-history", "path": "/verif/sim/simcore/src/bufqueue_world.rs", "serves_properties": ["C13"], "kind_free_text": "seeded BufferQueue histories vs VecDeque<String>"},
+            {"name": "byte-stream", "path": "/verif/sim/simcore/src/bytes_world.rs", "serves_properties": ["C10"], "kind_free_text": "simulated byte delivery (chunk cuts, SimReader with short reads / EINTR / hard error) into tendril's decoders and the from_utf8() parsers"},
+            {"name": "rcdom-history", "path": "/verif/sim/simcore/src/rcdom_world.rs", "serves_properties": ["C20"], "kind_free_text": "tee sink (RcDom + model DOM) under recorded parse histories and seeded direct histories"},
             {"name": "xml-stream", "path": "/verif/sim/simcore/src/xml_stream.rs", "serves_properties": ["C04", "C05", "C08", "C15", "C18"], "kind_free_text": "the same event loop driving xml5ever's tokenizer and tree builder"},
             {"name": "html-stream", "path": "/verif/sim/simcore/src/html_stream.rs", "serves_properties": ["C03", "C04", "C05", "C06", "C08", "C09", "C18", "C19"], "kind_free_text": "sequential discrete-event simulator of the HTML push-parser protocol (source, embedder, script, collector, sinks)"},
         ],
